@@ -3,6 +3,7 @@
 import Yarel.Gen.Fns
 import Yarel.Model.Intern
 import Yarel.Props.FnsTie.Intern
+import Yarel.Props.FnsTie.InternStoreTie
 open Yarel Yarel.Gen Yarel.FnsTie
 
 /-- tables of capacity 4 and 8 with chains, wrap-around at the end of the array, equal hashes with different texts, equal low bits -/
@@ -43,4 +44,31 @@ def main : IO Unit := do
       if g != m then
         n := n + 1
         IO.println s!"DISAGREE ObjStringStore::get table={reprStr es} mask={mask} key=({h.toNat}, {reprStr s}) gen={reprStr g} model={reprStr m}"
+  -- the writing half: adjust_capacity and insert, compared on what they leave in the table (hash and bytes per slot), count and mask
+  let eraseT (es : List (Option (BitVec 64 × String))) : List (Option (UInt64 × List UInt8)) := es.map (Option.map viewP)
+  let eraseM (a : Array (Option Intern.Entry)) : List (Option (UInt64 × List UInt8)) := a.toList.map (Option.map eraseE)
+  for (es, mask) in tables do
+    let size := (es.filter Option.isSome).length
+    for newCap in [es.length * 2, es.length, 1, 4] do
+      let g : Rs.M (List (Option (UInt64 × List UInt8)) × Int) :=
+        Rs.M.bind (Fns.store_adjust_capacity newCap (newCap : Int) es (mask : Int)) fun r => Rs.M.ok (eraseT r.2.1, r.2.2)
+      let m : Rs.M (List (Option (UInt64 × List UInt8)) × Int) :=
+        match Intern.Store.adjustCapacity ⟨viewSlots id es, size, mask⟩ newCap with
+        | .ok s' => .ok (eraseM s'.entries, (s'.mask : Int))
+        | .error _ => .panic
+      if reprStr g != reprStr m then
+        n := n + 1
+        IO.println s!"DISAGREE ObjStringStore::adjust_capacity table={reprStr es} mask={mask} new_capacity={newCap} gen={reprStr g} model={reprStr m}"
+    for (h, s) in keys do
+      let st : Intern.Store := ⟨viewSlots id es, size, mask⟩
+      let fuel := if st.needsGrow then es.length * 2 else es.length
+      let g : Rs.M (List (Option (UInt64 × List UInt8)) × Int × Int) :=
+        Rs.M.bind (Fns.store_insert fuel (h, s) es (size : Int) (mask : Int)) fun r => Rs.M.ok (eraseT r.2.1, r.2.2.1, r.2.2.2)
+      let m : Rs.M (List (Option (UInt64 × List UInt8)) × Int × Int) :=
+        match st.insert (viewEntry 999 (h, s)) with
+        | .ok s' => .ok (eraseM s'.entries, (s'.size : Int), (s'.mask : Int))
+        | .error _ => .panic
+      if reprStr g != reprStr m then
+        n := n + 1
+        IO.println s!"DISAGREE ObjStringStore::insert table={reprStr es} size={size} mask={mask} key=({h.toNat}, {reprStr s}) gen={reprStr g} model={reprStr m}"
   IO.println s!"SEARCHED TieIntern disagreements={n}"
